@@ -23,13 +23,17 @@ type c20Case struct {
 	Plan      []int  `json:"dial_plan"` // outcomes of successive dials: 0 accept, 1 refuse, 2 accept but writes fail
 	SecBreak  int    `json:"sec_break"` // the peer resets the working reconnectable connection before send i (-1 never)
 	NSend     int    `json:"nsend"`
-	Size      string `json:"size,omitempty"` // "" small | the encoded length of every message: 65535, 65536, 65537, 70000, 200000 bytes, each with and without a body ("-nobody")
+	LocalPort bool   `json:"backend_local_port,omitempty"` // e2e-request: the listens entry sets backend-local-port
+	Size      string `json:"size,omitempty"`               // "" small | the encoded length of every message: 65535, 65536, 65537, 70000, 200000 bytes, each with and without a body ("-nobody")
 }
 
 func (c c20Case) sig() string {
 	s := fmt.Sprintf("%s|primary=%s,secondary=%s,plan=%v,break=%d,n=%d", c.Target, c.Primary, c.Secondary, c.Plan, c.SecBreak, c.NSend)
 	if c.Size != "" {
 		s += ",size=" + c.Size
+	}
+	if c.LocalPort {
+		s += ",backend-local-port"
 	}
 	return s
 }
@@ -298,6 +302,9 @@ func c20Direct(cs c20Case) (string, string) {
 
 func c20E2E(cs c20Case) (string, string) {
 	cfg := RCfg{Name: "svc.example.com", Listens: []RListen{{Addr: "127.0.0.1", UDP: 5060, TCP: 5062, Backends: []string{"tcp://127.0.1.2:7000"}}}}
+	if cs.LocalPort {
+		cfg.Listens[0].BackendLocalPort = 7777
+	}
 	w := StartRelayWorld(SimOpts{}, cfg)
 	defer w.Close()
 	ua := w.Client("ua", "127.0.0.9", "127.0.0.1:5062")
@@ -529,8 +536,15 @@ func c20Run(c *Ctx) {
 							if !c.Mine(idx) || c.Expired() {
 								continue
 							}
-							cs := c20Case{target, pr, sc, plan, brk, n, ""}
+							cs := c20Case{target, pr, sc, plan, brk, n, false, ""}
 							cl, detail := c20Eval(cs)
+							if target == "e2e-request" && cl == "" {
+								// the same again with a configured backend-local-port (a TCP backend must still re-connect)
+								cs.LocalPort = true
+								cl, detail = c20Eval(cs)
+								c.Res.Evaluations++
+								c.Res.Executions++
+							}
 							c.Res.Evaluations++
 							c.Res.Executions++
 							if pr != "healthy" || brk >= 0 || len(plan) > 0 {
@@ -588,7 +602,7 @@ func c20Sizes(c *Ctx, idx *int64) {
 
 func init() {
 	addCheck(&Check{ID: "C20", Level: "fault_enumeration",
-		Rule:   "the complete fault product as environment answers of the simulated network: cached inbound connection {absent, healthy, reset by the peer before send 0/1/2} x reconnectable path {fresh, stale (established earlier, then reset), stale-partial (takes the first 100 bytes of the next write, then breaks), absent} x every dial plan of up to three (thorough four) successive outcomes over {accepted, refused, accepted but every write fails, accepted but the first write is cut after 100 bytes (direct targets)} x working connection reset before send 0/1/2 or never x send sequences of 1-3 (thorough 1-4) messages, plus encoded message lengths of 65535 / 65536 / 65537 / 70000 / 200000 bytes (length in the body or in a header with an empty body) on the direct targets under no fault and single faults, for (a) the FailOverClientTransport obtained from the real ClientTransportMgr exactly as the proxy obtains it, (b) a directly constructed fail-over, (c) TCPBackend, (d) end to end: responses towards a TCP client whose connection breaks, (e) requests towards a TCP backend; oracle: Send returns nil iff exactly one complete copy was delivered, success is required whenever the next connection attempt is accepted with healthy writes, no write on a connection that failed before, no dial while the working connection is healthy, no hang, no crash; non-trivial = at least one fault in the pattern",
+		Rule:   "the complete fault product as environment answers of the simulated network: cached inbound connection {absent, healthy, reset by the peer before send 0/1/2} x reconnectable path {fresh, stale (established earlier, then reset), stale-partial (takes the first 100 bytes of the next write, then breaks), absent} x every dial plan of up to three (thorough four) successive outcomes over {accepted, refused, accepted but every write fails, accepted but the first write is cut after 100 bytes (direct targets)} x working connection reset before send 0/1/2 or never x send sequences of 1-3 (thorough 1-4) messages, plus encoded message lengths of 65535 / 65536 / 65537 / 70000 / 200000 bytes (length in the body or in a header with an empty body) on the direct targets under no fault and single faults, for (a) the FailOverClientTransport obtained from the real ClientTransportMgr exactly as the proxy obtains it, (b) a directly constructed fail-over, (c) TCPBackend, (d) end to end: responses towards a TCP client whose connection breaks, (e) requests towards a TCP backend, with and without a configured backend-local-port (a bind to a port still held by an earlier connection fails in the simulation); oracle: Send returns nil iff exactly one complete copy was delivered, success is required whenever the next connection attempt is accepted with healthy writes, no write on a connection that failed before, no dial while the working connection is healthy, no hang, no crash; non-trivial = at least one fault in the pattern",
 		Assume: []string{"a write on a reset connection fails at once (the kernel's delayed RST, which makes exactly-once impossible for any implementation, is outside the model)", "a peer that black-holes a dial is outside what the simulation can decide"},
 		Run:    c20Run,
 		Replay: func(c *Ctx, raw json.RawMessage) string {
